@@ -32,6 +32,11 @@ fn fixed_program(i: usize) -> Program {
 
 /// Turn a finite program into one with an infinite answer stream by putting `always()` in front
 /// of a clause or wrapping a clause in `loop { }` (set reading: same set of answers).
+thread_local! {
+    /// query variable that a never()-guarded clause pretends to bind (set per case)
+    static NEVER_Q: std::cell::Cell<V> = std::cell::Cell::new(0);
+}
+
 fn infinitize(rng: &mut Rng, g: &G, done: &mut bool) -> G {
     match g {
         G::Cond(cs) if !*done && rng.chance(1, 2) => {
@@ -42,6 +47,12 @@ fn infinitize(rng: &mut Rng, g: &G, done: &mut bool) -> G {
                 cs2[k].insert(0, G::Always);
             } else {
                 cs2[k] = vec![G::Loop(vec![cs2[k].clone()])];
+            }
+            if rng.chance(1, 3) {
+                // a clause guarded by never(): it diverges without answers, so the binding behind it
+                // (a constant no other clause uses) must never show up
+                let pos = rng.below(cs2.len() + 1);
+                cs2.insert(pos, if rng.chance(1, 4) { vec![G::Never] } else { vec![G::Never, G::Eq(T::Var(NEVER_Q.with(|c| c.get())), T::Int(99))] });
             }
             G::Cond(cs2)
         }
@@ -64,7 +75,7 @@ impl Check for C06 {
         ]
     }
     fn rule(&self) -> &'static str {
-        "'finite': finite-tree programs (nested disjunctions of 2-6 clauses incl. trivially true/false clauses, multi-answer conjunctions, fresh, member/append/rember, generated recursive closures over ground lists, match with alternatives, ==, !=; nesting depth 3): the default interleaving run must return the same multiset of answers (tuples up to renaming and equal ground-instance sets) as the same program wrapped in dfs { } and as the reference interpreter; 'infinite': the same programs with always() put in front of a clause or a clause wrapped in loop { }: each of the first 30 answers must have all its ground instances among the instances of the reference answers under the set reading (loop g = g, always = succeed); 'fixed': hand-written shapes (trivially true disjunct with pending later clauses, six clauses, always/loop prefixes). Distinct = distinct program text; non-trivial = at least one disjunction and at least one answer."
+        "'finite': finite-tree programs (nested disjunctions of 2-6 clauses incl. trivially true/false clauses, multi-answer conjunctions, fresh, member/append/rember, generated recursive closures over ground lists, match with alternatives, ==, !=; nesting depth 3): the default interleaving run must return the same multiset of answers (tuples up to renaming and equal ground-instance sets) as the same program wrapped in dfs { } and as the reference interpreter; 'infinite': the same programs with always() put in front of a clause or a clause wrapped in loop { }, one in three with an additional clause guarded by never() (`[never(), q == 99]` or bare `never()`), which diverges without answers: each of the first 30 answers must have all its ground instances among the instances of the reference answers under the set reading (loop g = g, always = succeed, never = no answers); 'fixed': hand-written shapes (trivially true disjunct with pending later clauses, six clauses, always/loop prefixes). Distinct = distinct program text; non-trivial = at least one disjunction and at least one answer."
     }
     fn assumptions(&self) -> Vec<String> {
         vec!["reference: pvmon::refsem (depth-first list monad); for infinite streams only soundness of a 30-answer prefix is decided".into()]
@@ -96,6 +107,7 @@ impl Check for C06 {
                 let p = SearchGen::new(&mut rng, cfg).program();
                 if infinite {
                     let mut done = false;
+                    NEVER_Q.with(|c| c.set(p.qvars[0]));
                     let body: Vec<G> = p.body.iter().map(|g| infinitize(&mut rng, g, &mut done)).collect();
                     if !done {
                         out.count("skipped_no_disjunction", 1);
